@@ -107,6 +107,17 @@ func runC19(c *an.Ctx) {
 				emptyS := an.B("errors.Is(" + localErr + ",header.ErrEmptyStore)")
 				pr := ff.Prune(expiredL.Neg(), emptyS.Neg())
 				c.Check(!pr.Reachable(hc.Block()), "C19.a", "request-only-when-needed", "subjective initialisation asks the trusted peers only when the local head is expired or the store is empty", subj, hc, "", nil)
+				// … and it asks THEM: by the Exchange's contract a request that carries a trusted head goes to
+				// the tracked (untrusted) peers and is only verified against that head — here an expired one
+				{
+					okPlain := false
+					if n := len(hc.Call.Args); n > 0 {
+						if k, isK := hc.Call.Args[n-1].(*ssa.Const); isK && k.IsNil() {
+							okPlain = true
+						}
+					}
+					c.Check(okPlain, "C19.a", "reinit-without-trusted-head", "the (re)initialisation request carries no options: it is answered by the trusted peers, not verified against the expired local head", subj, hc, "options "+t.Of(hc.Call.Args[len(hc.Call.Args)-1]), nil)
+				}
 				// a usable local head is returned as is
 				for _, r := range pr.Returns() {
 					if t.ErrShape(errResult(r)) == "nil" {
